@@ -447,6 +447,21 @@ def classify_rejection(out):
 # the run
 # ----------------------------------------------------------------------------------------------
 
+class Violations(list):
+    """Keeps at most CAP records per class (a broken tree fails on millions of inputs); counts the rest."""
+    CAP = 8
+
+    def __init__(self):
+        super().__init__()
+        self.counts = {}
+
+    def append(self, v):
+        k = v.get("class") or v["what"]
+        self.counts[k] = self.counts.get(k, 0) + 1
+        if self.counts[k] <= self.CAP:
+            super().append(v)
+
+
 def choose_units(rng, tier):
     lib = H.library_units()
     units = [{"kind": "library", "expr": "au::" + u, "pre": "", "name": u} for u, _ in lib]
@@ -457,7 +472,7 @@ def choose_units(rng, tier):
 def explore(tier, seed, rng, wd):
     t0 = time.time()
     drv = Driver()
-    violations = []
+    violations = Violations()
     units = choose_units(rng, tier)
     insts = []
     for ui in range(len(units)):
@@ -647,6 +662,7 @@ def explore(tier, seed, rng, wd):
         "samples": samples,
         "exhaustive": False,
         "distribution": stats,
+        "violation_counts": violations.counts,
         "explore_s": round(time.time() - t0, 2),
     }
     return coverage, violations
